@@ -436,6 +436,40 @@ def rnd_case(R, malformed=False, big=False):
     return make_case(n, K, mask, scripts, ops)
 
 
+def rnd_burst_case(R):
+    """Scale dimension: MANY handles at or before one dispatch time -- either many entries due together or few
+    entries re-armed many times between two dispatches (each update leaves a dead handle in the heap) -- followed by
+    dispatches at/after the due times.  A dispatch must fire every due live entry however many handles it pops."""
+    mode = R.choice(["many-due", "many-due", "resched-storm", "mixed"])
+    base = B + R.choice([0, 5, 1000 * US])
+    ops = [("T", base - 1)]
+    if mode == "many-due":
+        n = R.choice([33, 63, 64, 65, 66, 100, 129, 200])
+        for e in range(n):
+            ops.append(("W", e, base + R.choice([0, 0, 1, 2, 3])))
+        if R.random() < 0.5:
+            for e in R.sample(range(n), R.choice([1, 5, n // 3])):
+                ops.append(("E", e))
+    elif mode == "resched-storm":
+        n = R.choice([1, 2, 3])
+        for e in range(n):
+            ops.append(("W", e, base + 2))
+        for _ in range(R.choice([31, 63, 64, 65, 66, 100, 130, 257])):
+            ops.append(("U", R.randrange(n), base + R.choice([0, 1, 2, 3])))
+    else:
+        n = R.choice([40, 70])
+        for e in range(n):
+            ops.append(("W", e, base + R.choice([0, 1, 2, 3, 50])))
+        for _ in range(R.choice([30, 70, 140])):
+            ops.append(("U", R.randrange(n), base + R.choice([0, 1, 2, 3, 50])))
+    for t in sorted(R.sample([base, base + 1, base + 2, base + 3, base + 4, base + 60], R.choice([1, 2, 3]))):
+        ops.append(("T", t))
+        ops.append(("N", 0))
+        ops.append(("P", t))
+        ops.append(("N", 0))
+    return make_case(n, 1000, "-", {}, ops)
+
+
 def rnd_loop_case(R):
     """Event-loop iterations (op L) through the real Thread::process_events: the clock only moves
     forward, call_events takes d, timers are due before / inside / after the busy interval."""
@@ -575,6 +609,10 @@ def gen(seed, tier):
         cases.append(rnd_case(R, malformed=True))
     for _ in range(nb):
         cases.append(rnd_case(R, big=True))
+    nbu = 60 if tier == "quick" else 600
+    for _ in range(nbu):
+        cases.append(rnd_burst_case(R))
+    stats["burst"] = nbu
     n2 = 2000 if tier == "quick" else 20000
     for _ in range(n2):
         cases.append(rnd_two_sched_case(R))
